@@ -218,14 +218,15 @@ extern "C" void harness_c16_ops() {
 extern "C" void harness_c16_orient_static() {
   unsigned char o1 = v_nondet_u8(), o2 = v_nondet_u8();
   unsigned char r = HexK::orthogonal_orientation(o1, o2);
-  if (o1 >= 6 || o2 >= 6 || (o1 >> 1) == (o2 >> 1)) v_assert(r == HexK::INVALID, "C16 orthogonal_orientation is INVALID for invalid or same-axis arguments");
-  else {
+  unsigned char expect = HexK::INVALID;                       // invalid or same-axis arguments
+  if (o1 < 6 && o2 < 6 && (o1 >> 1) != (o2 >> 1)) {
     int a1 = o1 >> 1, a2 = o2 >> 1, a3 = 3 - a1 - a2;
     bool cyclic = (a2 == (a1 + 1) % 3);                       // x*y, y*z, z*x are positive
     bool neg = ((o1 & 1) != 0) != ((o2 & 1) != 0);
     if (!cyclic) neg = !neg;
-    v_assert(r == (unsigned char)(2 * a3 + (neg ? 1 : 0)), "C16 orthogonal_orientation(o1,o2) == cross product of the signed axes");
+    expect = (unsigned char)(2 * a3 + (neg ? 1 : 0));
   }
+  v_assert(r == expect, "C16 orthogonal_orientation(o1,o2) == cross product of the signed axes, INVALID for invalid or same-axis arguments");
   if (o1 < 6) {
     v_assert(HexK::opposite_orientation(o1) == (o1 ^ 1), "C16 opposite_orientation flips front/back on the same axis");
     v_assert(HexK::orthogonal_orientation(o1, HexK::opposite_orientation(o1)) == HexK::INVALID, "C16 an orientation and its opposite have no orthogonal orientation");
